@@ -15,17 +15,17 @@ STATUS = {
  "C04": ("floorDiv/mod = Int.fdiv/fmod for all Int64 pairs, core=std, identity, zero divisor, no other failure", "10 in-process streams: both integer kernels, 4 operand-type pairs of py_div/py_mod/py_floor_div, f64 wrappers; compiled streams: binary `/ // %` and compound `/= //= %=` on int / float / mixed operands, each spelled as variables or with the right / left operand a literal, random + a deterministic grid (operator x spelling x sign combination x kind), through the real pipeline + rustc (zero divisors included)", "Python `//`, `%`, `/`"),
  "C05": ("slice/index/range = CPython for all i64 (saturating step), str=list copy", "9 streams incl. both copies, range with cap, dict_get", "CPython `s[a:b:c]`, `range`; slice syntax on the real parser"),
  "C06": ("const_value_sound, const_type_sound (binConst_type), index_error_agrees, runtime_index_error_reported, slice_step_zero_agrees, static_fold_sound, ok_implies_no_repeat, cycle_is_rejected, never_out_of_fuel, resolution_terminates; frozen sets: contains_iff, contains_perm, bisect_misses_unsorted witness (Props/C06, Sem/ConstEval, Sem/Comprehension)", "checker on `const K = E` (verdict, type, const_values); same expression in a compiled function body; compiled consts; dependency graphs; membership answered by compiled const sets", "Python evaluates the expression; const type = body type; independent cycle DFS; frozen const sets / lists answer membership and length like their literal; const comparisons mixing int and float"),
- "C07": ("phases_agree by structural induction; policy table by cases", "policy table (exhaustive), checker/IR/plan types over literals, parameters and operands only the checker can type (calls, fields, method calls), let/return/argument/compound verdicts, emit plan of the desugared compound assignment on a local variable and on a `mut` parameter", "documented table; Rust type of every emitted shape"),
+ "C07": ("phases_agree by structural induction; policy table by cases", "policy table (exhaustive), checker/IR/plan types over literals, parameters and operands only the checker can type (calls, fields, method calls), let/return/argument/compound verdicts, emit plan of the desugared compound assignment on a local variable and on a `mut` parameter, the const evaluator's type of the same trees over const names", "documented table; Rust type of every emitted shape"),
  "C08": ("roundtrip over the expression ladder (WL derivations), fmt injective; literals: string_literal_roundtrip / string_literal_lexes / bytes_literal_roundtrip (formatter escaping read back by the lexer, Syntax/Literals), apostrophe_must_stay_bare witness", "parse, fmt, round trip (incl. rejections); fmtStr / fmtBytes = text written by the real formatter (every byte value); scanStr / scanBytes = real lexer on arbitrary literal texts", "AST equality on corpus + generators (generated types in every position, nested match arms, 12-level nesting)"),
  "C09": ("fmt idempotent on the ladder; CLI decision logic; runFiles read-only; writer_hygiene (Tool/Writer: indentation, line breaks and blank lines add no tab and no trailing whitespace for any operation sequence), indenting_newline_leaves_trailing_blanks witness", "CLI single file (formatted / unformatted / unparsable + near-formatted variants: no final newline, extra blank lines at the end, trailing space, leading blank line, CRLF) + directory; real FormatWriter (hook) = model on generated operation sequences", "idempotence, check consistency (--check reports what fmt would rewrite), hygiene; generated types in every position (one-element tuple types, function types), nested match arms"),
- "C10": ("8 invariance theorems over all states/continuations; reindent under monotone maps; eof_blank_tail_invisible / eof_comment_tail_invisible (blanks or a comment after the last line break, any width)", "layout model vs real lexer kinds", "AST equality under 11 edit kinds (incl. blanks after the last line break); text cut at the end of seeded logical lines parses the same with and without its final newline"),
- "C11": ("get_line_info slices on boundaries, EOF, C19 ranges (partial scope)", "format_error rendering incl. long lines", "whole pipeline fuzz with watchdog, incl. parseable programs with odd declaration graphs (generated extends cycles / self loops / unknown bases x trait adoption x uses that walk the graph)"),
- "C12": ("manifest_order_independent; module tree (Tool/ModuleTree): children_order_independent, children_nodup, carrier_order_independent, never_file_and_modrs, old_generator_wrote_both witness", "manifest repeated with fresh hash maps; generate_nested on generated path sets (shared prefixes, module = directory), three fresh hash maps each: files written + `pub mod` lines per directory = model", "3 processes × environments, in-process twice; error-provoking programs (several unknown keywords / wrong arguments / duplicate declarations)"),
+ "C10": ("8 invariance theorems over all states/continuations; reindent under monotone maps; eof_blank_tail_invisible / eof_comment_tail_invisible (blanks or a comment after the last line break, any width)", "layout model vs real lexer kinds", "AST equality under 11 edit kinds (incl. blanks after the last line break; inserted comments with multi-byte text); text cut at the end of seeded logical lines parses the same with and without its final newline"),
+ "C11": ("get_line_info slices on boundaries, EOF, C19 ranges (partial scope)", "format_error rendering incl. long lines", "whole pipeline fuzz with watchdog, incl. parseable programs with odd declaration graphs (generated extends cycles / self loops / unknown bases x trait adoption x uses that walk the graph) and arity inputs (built-in methods and functions with 0-4 arguments, tuple unpacking with the wrong number of names)"),
+ "C12": ("manifest_order_independent; module tree (Tool/ModuleTree): children_order_independent, children_nodup, carrier_order_independent, never_file_and_modrs, old_generator_wrote_both witness", "manifest repeated with fresh hash maps; generate_nested on generated path sets (shared prefixes, module = directory), three fresh hash maps each: files written + `pub mod` lines per directory = model", "3 processes × environments, in-process twice; error-provoking programs (several unknown keywords / wrong arguments / duplicate declarations), a broken dependency checked through a relative path from different directories, `incan test -v` with seven fixtures in four processes"),
  "C13": ("table_complete / table_sound / legal_keywords_rawable over tables REGENERATED from the source on every run, emitted_identifier_valid_partial, emit_injective, rename_preserves_binding, self_type_name_unemittable (Props/C13, Sem/Names, Generated/Keywords)", "is_keyword on every entry + near misses; emitTok = spelling of a local and a struct field in the emitted Rust; one compiled program per (binding position, name) over 38 positions (payload variants constructed / matched / bound, keyword arguments of functions and methods, closures with one and two parameters, field chains, consts in consts …) incl. reflection (__fields__, __class_name__, JSON keys); sibling names (k, k_, _k, r_k, K) bound side by side", "renamed program behaves like the plain-named one; sibling bindings keep their own values"),
- "C14": ("resolvers_agree_partial + 3 witnesses, private_rejected, exported_iff, private_decl_rejected, work-list lemmas", "both resolvers on real trees (incl. deep entries, multi-level parents), visibility verdicts (plain and `as`-aliased imports: alias fresh, alias = another pub name, alias = a private name), export computation on generated modules imported from the entry directory and from nested packages (pkg.inner, pkg.sub.deep)", "agreement, visibility, missing/cycle"),
+ "C14": ("resolvers_agree_partial + 3 witnesses, private_rejected, exported_iff, private_decl_rejected, work-list lemmas", "both resolvers on real trees (incl. deep entries, multi-level parents, pairs of imports in one file in both orders), visibility verdicts (plain and `as`-aliased imports: alias fresh, alias = another pub name, alias = a private name; bare use of a declaration that the import does not name), export computation on generated modules imported from the entry directory and from nested packages (pkg.inner, pkg.sub.deep)", "agreement, visibility, missing/cycle"),
  "C15": ("table_pinned over the crate table REGENERATED from add_rust_crate on every run, all_pinned, unknown_refused, deps_exact, names_nodup; json_trigger_found_everywhere / async_trigger_found_everywhere (Tool/Scanners: every walker step is one the scanner follows), json_trigger_was_missed witness", "ProjectGenerator + `incan build` (stub cargo) + trigger positions (json_stringify in 40 statement / expression / owner positions; serde derives in every decorator / list / declaration position); scanner sweep: model scans = real detect_*_usage with a trigger at every expression position of ~200 programs", "exactness, pinning, refs ⊆ declared; every placement of serde / async / web over the entry file and two dependency modules"),
- "C16": ("verdict_truthful, skip_not_run, xfail_inverts, filter_exact, all_selected_reported, exit_iff_failure, counts_match, collect_complete / collect_sound / collect_length (discovery over several files), first_of_name_hides_a_failure witness (Props/C16, Tool/TestRunner)", "real `incan test` on generated files (every executed test through cargo test)", "ground truth of the test bodies (9 ways to fail: assert, assert_eq / ne / true / false, fail, index, division by zero, unwrap of None), -k with and without --slow over matching slow tests, -x, four @skip spellings, the same test name in two files, nested directories and a symlinked directory"),
- "C17": ("construction_validated_partial, rejected_argument_stops, own_methods_exempt, other_methods_checked, select_sound / select_from_underlying / select_single, nominal, alias_bypasses witness (Props/C17, Sem/Newtype)", "compiled programs: 11 fixed declaration shapes + generated ones (1-3 methods, hook-shaped or near misses, hook-like and other names) × 19 sites × values; 6 underlying types", "hook enforced outside own methods; mixing newtypes rejected at 26 sites (annotations, return, argument, kwarg, default, method argument, field, append / insert / extend / index / dict store, Option / Result / tuple / comprehension / match arm)"),
+ "C16": ("verdict_truthful, skip_not_run, xfail_inverts, filter_exact, all_selected_reported, exit_iff_failure, counts_match, collect_complete / collect_sound / collect_length (discovery over several files), first_of_name_hides_a_failure witness (Props/C16, Tool/TestRunner)", "real `incan test` on generated files (every executed test through cargo test)", "ground truth of the test bodies (9 ways to fail: assert, assert_eq / ne / true / false, fail, index, division by zero, unwrap of None), -k with and without --slow over matching slow tests, -x, four @skip spellings, the same test name in two files, nested directories and a symlinked directory, test bodies printing lines that look like the harness's own verdicts, runs whose only blemish is an unexpected pass"),
+ "C17": ("construction_validated_partial, rejected_argument_stops, own_methods_exempt, other_methods_checked, select_sound / select_from_underlying / select_single, nominal, alias_bypasses witness (Props/C17, Sem/Newtype)", "compiled programs: 11 fixed declaration shapes + generated ones (1-3 methods, hook-shaped or near misses, hook-like and other names) × 23 sites (incl. the payload of another newtype as the argument, list elements, f-strings) × values; 6 underlying types", "hook enforced outside own methods; mixing newtypes rejected at 26 sites (annotations, return, argument, kwarg, default, method argument, field, append / insert / extend / index / dict store, Option / Result / tuple / comprehension / match arm)"),
  "C18": ("converges for all interleavings (ticket protocol); 3 counter-examples for the old protocol; save_with_ticket_loses_newer_version and per_document_tickets_resurrect_old_text witnesses; open_dependency_overrides_disk", "event-log replay (histories with opens, changes, closes and interleaved didSave notifications); importer diagnostics with a dependency text in the editor vs on disk", "hover = latest after quiescence; dependency scenarios must be sensitive"),
  "C19": ("roundtrip, strict_mono, counting, range_wellformed, terminal_line_agrees, terminal_col_agrees (unconditional since the character-column fix; old_terminal_col_counted_bytes keeps the pre-fix witness)", "5 streams, exhaustive small documents over a, é, €, 😀, LF, CR, TAB; rendered caret line", "counting in Python"),
  "C20": ("roundtrip (mutual, any depth), json_field_names, type_mapping, eq_iff_structural, eq_fields, ord_lexicographic, cmpV_swap (mutual, any depth), lt_iff_gt, cmpV_refl_of_eq, hash_respects_eq, derives_closed, derives_kept, chain_fields_in_declaration_order / chain_lookup (inherited fields, Props/C20, Sem/Derive)", "compiled programs: json_stringify + from_json, six comparison operators, Dict keys, clone (fields declared on one model/class or over a chain of 2-3 classes); emitted #[derive] list for subsets", "Python json / tuple order; rustc supertrait closure"),
